@@ -350,6 +350,9 @@ func (i *interpreter) classifyPanic(r any) string {
 		return "panic"
 	case runtime.Error:
 		msg := r.Error()
+		if debugStacks {
+			fmt.Fprintln(os.Stderr, "runtime error:", msg, "@", i.where(), i.panicStack)
+		}
 		if strings.Contains(msg, "nil pointer dereference") || strings.Contains(msg, "index out of range") ||
 			strings.Contains(msg, "slice bounds out of range") || strings.Contains(msg, "nil map") {
 			// most likely a run-time panic of the target program; reported only
